@@ -393,6 +393,16 @@ fn compute_partition_keys_by_row<'a>(
             col
         ))?;
 
+        // A hive-style directory name cannot represent NULL (and the listing
+        // side never produces a NULL partition value): reading the value slot
+        // of a NULL would silently file the row under '' / 0 / false.
+        if col_array.logical_null_count() > 0 {
+            return Err(exec_datafusion_err!(
+                "PartitionBy Column {} contains NULL values, which cannot be written to hive-style partition directories",
+                col
+            ));
+        }
+
         match dtype {
             DataType::Utf8 => {
                 let array = as_string_array(col_array)?;
